@@ -182,15 +182,19 @@ UPDATERS = {
 }
 
 
-def apply_leaf(cur, u, updater_name, default):
-    """Model of applying update u to a leaf holding cur."""
+def apply_leaf(cur, u, updater_name, default, units=None):
+    """Model of applying update u to a leaf holding cur.  A variable with
+    declared units holds a quantity in those units after any update."""
     name = updater_name or 'accumulate'
     if isinstance(u, dict) and any(k in u for k in (
             '_default', '_updater', '_value', '_properties', '_emit', '_serializer')):
         if '_updater' in u:
             name = u['_updater']
             u = u.get('_value', default)
-    return UPDATERS[name](cur, u)
+    out = UPDATERS[name](cur, u)
+    if units is not None and _is_qty(out):
+        out = out.to(units)
+    return out
 
 
 # ---------------------------------------------------------------------------
@@ -212,7 +216,22 @@ def flat(tree, leafset, path=()):
     return out
 
 
+def _is_qty(x):
+    return hasattr(x, 'magnitude') and hasattr(x, 'units')
+
+
 def values_equal(a, b):
+    if _is_qty(a) or _is_qty(b):
+        # strict: same units (not merely the same dimension), same magnitude
+        if not (_is_qty(a) and _is_qty(b)):
+            return False
+        if str(a.units) != str(b.units):
+            return False
+        ma, mb = a.magnitude, b.magnitude
+        try:
+            return abs(ma - mb) <= 1e-9 * max(1.0, abs(ma), abs(mb))
+        except TypeError:
+            return values_equal(ma, mb)
     try:
         import numpy as np
         if isinstance(a, np.ndarray) or isinstance(b, np.ndarray):
